@@ -678,4 +678,51 @@ theorem sim_step {s : H} {h : Hist} (hs : Sim s h) (op : Op) :
   | next w => exact sim_next hs w
   | drop w => exact sim_drop hs w
 
+/-! ### whole runs -/
+
+theorem sim_exec {s : H} {h : Hist} (hs : Sim s h) (ops : List Op) :
+    Sim (exec s ops) (hist s h ops) := by
+  induction ops generalizing s h with
+  | nil => exact hs
+  | cons op ops ih => exact ih (sim_step hs op).2
+
+theorem run_eq {s : H} {h : Hist} (hs : Sim s h) (ops : List Op) :
+    run s ops = Spec.Health.run h ops := by
+  induction ops generalizing s h with
+  | nil => rfl
+  | cons op ops ih =>
+    obtain ⟨h1, h2⟩ := sim_step hs op
+    simp only [run, Spec.Health.run, h1]
+    rw [h1] at h2
+    rw [ih h2]
+
+theorem hist_eq {s : H} {h : Hist} (hs : Sim s h) (ops : List Op) :
+    hist s h ops = Spec.Health.log h ops := by
+  induction ops generalizing s h with
+  | nil => rfl
+  | cons op ops ih =>
+    obtain ⟨h1, h2⟩ := sim_step hs op
+    simp only [hist, Spec.Health.log, h1]
+    rw [h1] at h2
+    exact ih h2
+
+theorem exec_append (s : H) (a b : List Op) : exec s (a ++ b) = exec (exec s a) b := by
+  induction a generalizing s with
+  | nil => rfl
+  | cons op a ih => exact ih _
+
+theorem hist_append (s : H) (h : Hist) (a b : List Op) :
+    hist s h (a ++ b) = hist (exec s a) (hist s h a) b := by
+  induction a generalizing s h with
+  | nil => rfl
+  | cons op a ih => exact ih _ _
+
+theorem wellLogged_hist (ops : List Op) : wellLogged (hist init [] ops) := by
+  rw [hist_eq sim_init]; exact wellLogged_log _ _ trivial
+
+/-- The answer to one more operation after `ops`, computed by the oracle from the model's log. -/
+theorem answer_eq (ops : List Op) (op : Op) :
+    (step (exec init ops) op).2 = expected (hist init [] ops) op :=
+  resp_eq (sim_exec sim_init ops) op
+
 end Health
